@@ -540,3 +540,14 @@ func init() {
 	mutant("response-headers-without-end-headers", "server-loop-shape", "serverConn.go", "	h.SetEndHeaders(true)\n	h.SetEndStream(!hasBody)", "	h.SetEndStream(!hasBody)")
 	mutant("buffered-body-not-registered", "server-loop-shape", "serverConn.go", "		strm.pendingData = ctx.Response.Body()\n", "")
 }
+
+func init() {
+	mutant("response-without-status", "server-response-encoding", "serverConn.go", "	hf.SetValueBytes(statusBytes(res.Header.StatusCode()))\n\n	dst.AppendHeaderField(hp, hf, true)\n", "	hf.SetValueBytes(statusBytes(res.Header.StatusCode()))\n")
+	mutant("response-fields-dropped", "server-response-encoding", "serverConn.go", "		ToLower(hf.key)\n\n		dst.AppendHeaderField(hp, hf, false)\n", "		ToLower(hf.key)\n")
+	mutant("response-names-not-lowered", "server-response-encoding", "serverConn.go", "		hf.SetBytes(k, v)\n		ToLower(hf.key)\n\n		dst.AppendHeaderField(hp, hf, false)", "		hf.SetBytes(k, v)\n\n		dst.AppendHeaderField(hp, hf, false)")
+	mutant("write-loop-flushes-only-when-busy", "server-response-encoding", "serverConn.go", "		if err == nil && (len(sc.writer) == 0 || buffered > 10) {", "		if err == nil && (len(sc.writer) != 0 || buffered > 10) {")
+	mutant("panic-keeps-half-written-response", "server-response-encoding", "serverConn.go", "				ctx.Response.Reset()\n				ctx.Response.SetStatusCode(fasthttp.StatusInternalServerError)", "				ctx.Response.SetStatusCode(fasthttp.StatusInternalServerError)")
+	mutant("block-start-flag-inverted", "server-response-encoding", "serverConn.go", "b, err = sc.dec.nextField(hf, strm.blockFields == 0, strm.blockFields, b)", "b, err = sc.dec.nextField(hf, strm.blockFields != 0, strm.blockFields, b)")
+	mutant("scheme-extends-the-default", "server-response-encoding", "serverConn.go", "				strm.scheme = append(strm.scheme[:0], v...)", "				strm.scheme = append(strm.scheme[:1], v...)")
+	mutant("carried-bytes-decoded-again", "server-response-encoding", "serverConn.go", "	strm.previousHeaderBytes = b[:0]\n", "")
+}
